@@ -1,0 +1,38 @@
+//! Simulation seams for external verification harnesses.
+//!
+//! Only compiled with the cargo feature `falcon_verif`, which is off by
+//! default. With no hook installed every function here is a no-op, so
+//! enabling the feature alone does not change behaviour either.
+
+use std::sync::atomic::{AtomicUsize, Ordering};
+use std::sync::RwLock;
+
+static POINT_HOOK: RwLock<Option<fn(&'static str)>> = RwLock::new(None);
+static WINDOW_CAP: AtomicUsize = AtomicUsize::new(usize::MAX);
+
+/// Install (or remove) the function called at every simulation point.
+pub fn set_point_hook(hook: Option<fn(&'static str)>) {
+    *POINT_HOOK.write().unwrap_or_else(|e| e.into_inner()) = hook;
+}
+
+/// A simulation point: a place where another owner of shared copy-on-write
+/// state may act. The hook never receives falcon state.
+#[inline]
+pub fn point(site: &'static str) {
+    let hook = *POINT_HOOK.read().unwrap_or_else(|e| e.into_inner());
+    if let Some(hook) = hook {
+        hook(site);
+    }
+}
+
+/// Cap (shrink-only) the number of bytes the function translator hands to a
+/// block translator at once. `usize::MAX` means no cap.
+pub fn set_window_cap(cap: usize) {
+    WINDOW_CAP.store(cap, Ordering::SeqCst);
+}
+
+/// The current translation window cap.
+#[inline]
+pub fn window_cap() -> usize {
+    WINDOW_CAP.load(Ordering::SeqCst)
+}
